@@ -56,6 +56,44 @@ def random_case(rng, max_states=5, max_syms=3, kinds=("enfa", "nfa", "dfa"), vcs
     return case
 
 
+def random_dag_case(rng, max_states=5, max_syms=2, vcs=None):
+    """acyclic by construction (edges go from lower to higher ids): diamonds of symbol and eps edges, so that
+    the same state is reached along several branches"""
+    n = rng.randint(2, max_states)
+    k = rng.randint(1, max_syms)
+    p_eps = rng.choice([0.2, 0.4, 0.6])
+    dens = rng.choice([0.3, 0.5, 0.8])
+    trans = []
+    for p in range(n):
+        for q in range(p + 1, n):
+            if rng.random() < dens:
+                a = EPSID if rng.random() < p_eps else rng.randrange(k)
+                trans.append([p, a, q])
+                if rng.random() < 0.2:
+                    b = EPSID if a != EPSID else rng.randrange(k)
+                    trans.append([p, b, q])
+    start = [0] if rng.random() < 0.7 else sorted(set([0, rng.randrange(n)]))
+    final = [s for s in range(n) if rng.random() < 0.4]
+    vc = rng.choice(vcs or values.FA_VALUE_CLASSES)
+    case = {"kind": "enfa", "n": n, "k": k, "start": start, "final": final, "trans": trans, "extra": [],
+            "vc": vc, "token": False, "dag": True}
+    if vc == "inject":
+        perm = list(range(n))
+        rng.shuffle(perm)
+        sperm = list(range(k + 1))
+        rng.shuffle(sperm)
+        case["perm"] = perm
+        case["sperm"] = sperm
+    if rng.random() < 0.5:
+        case["shuffle"] = rng.randrange(1 << 30)
+    if rng.random() < 0.15 and n >= 2:
+        # one back edge: a single cycle in an otherwise acyclic graph
+        q = rng.randrange(1, n)
+        case["trans"].append([q, EPSID if rng.random() < 0.5 else rng.randrange(k), rng.randrange(q + 1)])
+        case["dag"] = False
+    return case
+
+
 def sval(case, i):
     return values.state_value(case["vc"], i, case.get("perm"))
 
